@@ -66,6 +66,8 @@ def peers_for(rnd):
     P.append(dict(good, mac=['hmac-sha1'], enc=['aes128-ctr', '3des-cbc']))
     P.append(dict(good, kex=['diffie-hellman-group1-sha1', 'curve25519-sha256'], key=['ssh-dss', 'ssh-ed25519']))
     P.append(dict(good, enc=['chacha20-poly1305@openssh.com', 'aes128-cbc'], mac=['hmac-sha2-256-etm@openssh.com', 'hmac-md5'], kex=['curve25519-sha256']))
+    P.append(dict(good, enc=['chacha20-poly1305@openssh.com', 'aes128-cbc', '3des-cbc', 'aes256-ctr'],
+                  mac=['hmac-sha2-256-etm@openssh.com', 'hmac-sha2-512-etm@openssh.com', 'umac-128-etm@openssh.com']))
     P.append(dict(good, kex=['foo-kex@example.org', 'curve25519-sha256'], enc=['aes128-ctr', 'bar-cipher']))
     P.append(dict(good, kex=['curve25519-sha256', 'kex-strict-s-v00@openssh.com'], key=['rsa-sha2-512', 'ssh-ed25519'], hk={'rsa-sha2-512': (2048, '', 0)}))
     P.append(dict(good, kex=['curve25519-sha256', 'diffie-hellman-group-exchange-sha256'], dh={'diffie-hellman-group-exchange-sha256': (1024, False)}))
@@ -259,7 +261,7 @@ from checks import rating, c15
 import random
 P = c15.peers_for(random.Random(0))
 out = {}
-for i, p in enumerate(P[:6]):
+for i, p in enumerate(P[:7]):
     c = rating.mk_case(i + 1, kex=p['kex'], key=p['key'], enc=p['enc'], mac=p['mac'], hk=p.get('hk'), dh=p.get('dh'), sw={'product': 'OpenSSH', 'c': [9, 6], 'p': ['none', 0]})
     for view in ('text', 'json'):
         r = runner.run_one(rating.scenario(c, view))
